@@ -11,12 +11,12 @@
      inv_wf        a workflow has no parent
      inv_start / inv_start_nodup   starting nodes are current children (listed once)
      inv_leaf      only composites own anything;  inv_slash  every label is a valid label
-   [risky s o] is the guard: operation o, in state s, is one of the four situations in which
-   the UNCHANGED code violates the property (known findings K1..K4, see the _refuted
-   theorems).  [is_rec] marks exhaustion of the model's recursion bounds (Python:
-   RecursionError), which does not happen within the bounds the harness uses.
    The theorems quantify over every object universe (kindof, strictof), every table of
-   composite attributes (reserved), every fuel and every history. *)
+   composite attributes (reserved), every history, EVERY bound pfuel of the ancestor walk /
+   suffix search (hitting it is a refusal that happens before anything is touched) and every
+   bound f >= 4 on the nesting of set_parent / add_child / remove_child calls (the code nests
+   at most 4 deep from a state satisfying the invariant).  No operation and no outcome
+   (RecursionError included) is excluded. *)
 From PW Require Import Base Lex LexProofs.
 
 (* The invariant holds initially (all objects orphans, valid labels) ... *)
@@ -25,40 +25,35 @@ Theorem C13_init : forall kindof reserved labels,
 Proof. exact init_inv. Qed.
 Print Assumptions C13_init.
 
-(* ... is preserved by EVERY operation outside the guards: add_child with/without label and
-   strict_naming, attribute assignment, construction with parent=, parent assignment (to a
-   composite, None, a non-composite), remove_child by instance or label, replace_child by
-   instance or label, marking a starting node -- accepted or refused ... *)
-Theorem C13_inv_step_partial : forall kindof strictof reserved N pfuel s o f,
-  Inv kindof reserved s ->
-  risky kindof strictof reserved pfuel s o = false ->
-  is_rec (snd (step kindof strictof reserved N pfuel f s o)) = false ->
+(* ... is preserved by EVERY operation: add_child with/without label and strict_naming,
+   attribute assignment, construction with parent=, parent assignment (to a composite, None,
+   a non-composite), remove_child by instance or label, replace_child by instance or label,
+   marking a starting node -- accepted or refused ... *)
+Theorem C13_inv_step : forall kindof strictof reserved N pfuel s o f,
+  Inv kindof reserved s -> 4 <= f ->
   Inv kindof reserved (fst (step kindof strictof reserved N pfuel f s o)).
 Proof. exact step_inv. Qed.
-Print Assumptions C13_inv_step_partial.
+Print Assumptions C13_inv_step.
 
-(* ... hence holds after every history all of whose operations are outside the guards.
-   Partial: the full statement (no guard) is refuted below, K1 K2 K4. *)
-Theorem C13_inv_partial : forall kindof strictof reserved N pfuel f labels ops,
-  (forall n, has_slash (labels n) = false) ->
-  safe kindof strictof reserved N pfuel f (init_state labels) ops = true ->
+(* ... hence holds after every history. *)
+Theorem C13_inv : forall kindof strictof reserved N pfuel f labels ops,
+  (forall n, has_slash (labels n) = false) -> 4 <= f ->
   Inv kindof reserved (run kindof strictof reserved N pfuel f (init_state labels) ops).
 Proof.
-  intros kindof strictof reserved N pfuel f labels ops H S.
-  exact (run_inv kindof strictof reserved N pfuel f ops (init_state labels) (init_inv kindof reserved labels H) S).
+  intros kindof strictof reserved N pfuel f labels ops H Hf.
+  exact (run_inv kindof strictof reserved N pfuel f Hf ops (init_state labels) (init_inv kindof reserved labels H)).
 Qed.
-Print Assumptions C13_inv_partial.
+Print Assumptions C13_inv.
 
 (* A refused operation (name clash, second parent, cyclic adoption, workflow given a parent,
-   reserved name, unknown child ...) outside the guards leaves the state EQUAL to what it was.
-   Partial: refuted without the guard, K3 (and K1 K2 K4). *)
-Theorem C13_rejected_noop_partial : forall kindof strictof reserved N pfuel s o f s' e,
-  Inv kindof reserved s ->
-  risky kindof strictof reserved pfuel s o = false ->
-  step kindof strictof reserved N pfuel f s o = (s', Err e) -> e <> ERecursion ->
+   reserved name, invalid label, unknown child, exhausted bound ...) leaves the state EQUAL to
+   what it was. *)
+Theorem C13_rejected_noop : forall kindof strictof reserved N pfuel s o f s' e,
+  Inv kindof reserved s -> 4 <= f ->
+  step kindof strictof reserved N pfuel f s o = (s', Err e) ->
   s' = s.
 Proof. exact step_noop. Qed.
-Print Assumptions C13_rejected_noop_partial.
+Print Assumptions C13_rejected_noop.
 
 (* At most one owner, under exactly one label (a consequence of the invariant). *)
 Theorem C13_one_owner : forall kindof reserved s p p' k k' c,
@@ -66,67 +61,43 @@ Theorem C13_one_owner : forall kindof reserved s p p' k k' c,
 Proof. exact inv_one_owner. Qed.
 Print Assumptions C13_one_owner.
 
-(* ---- the unguarded statements are FALSE of the faithful model (and of the code) ---------- *)
-(* K1: p, q workflows, a in p, another a in q;  a.parent = q raises AttributeError but leaves
-   a removed from p, naming q as parent, and not listed by q. *)
-Theorem C13_inv_refuted_K1 :
-  (forall n, has_slash (k1_labels n) = false) /\
-  let s := run k1_kinds all_strict nores 4 10 10 (init_state k1_labels) k1_ops in
-  snd (step k1_kinds all_strict nores 4 10 10
-         (run k1_kinds all_strict nores 4 10 10 (init_state k1_labels) (firstn 2 k1_ops)) (SetParent 2 (Some 1)))
-    = Err EAttribute /\
-  par s 2 = Some 1 /\ kids s 1 = [("a"%string, 3)] /\ kids s 0 = [] /\
-  ~ Inv k1_kinds nores s.
-Proof. exact k1_refuted. Qed.
-Print Assumptions C13_inv_refuted_K1.
+(* The cyclic test (a walk up the parent pointers) ends from every start in every state
+   satisfying the invariant: some bound suffices, and every larger one does. *)
+Theorem C13_walk_terminates : forall kindof reserved s x c,
+  Inv kindof reserved s -> exists g0, forall g, g0 <= g -> walk g s (Some x) c <> None.
+Proof. intros kindof reserved s x c I. exact (walk_terminates s c x (inv_rooted _ _ _ I x)). Qed.
+Print Assumptions C13_walk_terminates.
 
-(* K2: macro.add_child(workflow) raises ParentMostError after listing the workflow. *)
-Theorem C13_inv_refuted_K2 :
-  (forall n, has_slash (k2_labels n) = false) /\
-  let s := run k2_kinds all_strict nores 2 10 10 (init_state k2_labels) k2_ops in
-  snd (step k2_kinds all_strict nores 2 10 10 (init_state k2_labels) (AddChild 0 1 None None)) = Err EParentMost /\
-  kids s 0 = [("w"%string, 1)] /\ par s 1 = None /\
-  ~ Inv k2_kinds nores s.
-Proof. exact k2_refuted. Qed.
-Print Assumptions C13_inv_refuted_K2.
+(* The four situations in which the code violated the property before the fix commits (K1..K4
+   of the first round) on the model of the repaired code: three are refused with nothing
+   touched, the fourth (a false positive of the old string-prefix test) is accepted. *)
+Theorem C13_former_findings :
+  (let s := run k1_kinds all_strict nores 4 10 10 (init_state k1_labels) k1_ops in
+   last_result k1_kinds all_strict nores 4 k1_labels k1_ops = Err EAttribute /\
+   par s 2 = Some 0 /\ kids s 0 = [("a"%string, 2)] /\ kids s 1 = [("a"%string, 3)]) /\
+  (let s := run k2_kinds all_strict nores 2 10 10 (init_state k2_labels) k2_ops in
+   last_result k2_kinds all_strict nores 2 k2_labels k2_ops = Err EParentMost /\ kids s 0 = []) /\
+  (let s := run k3_kinds all_strict nores 3 10 10 (init_state k3_labels) k3_ops in
+   last_result k3_kinds all_strict nores 3 k3_labels k3_ops = Err ECyclic /\
+   kids s 1 = [("x"%string, 2)] /\ par s 2 = Some 1 /\ lbl s 0 = "R"%string) /\
+  (let s := run k4_kinds all_strict nores 3 10 10 (init_state k4_labels) k4_ops in
+   last_result k4_kinds all_strict nores 3 k4_labels k4_ops = Ok /\
+   kids s 1 = [("a"%string, 2)] /\ par s 2 = Some 1 /\ path 10 s 2 = Some "/a/m/a"%string).
+Proof. exact former_findings. Qed.
+Print Assumptions C13_former_findings.
 
-(* K4: workflow "a" owns macro m;  m.add_child(x, label="a") re-labels and lists x, then the
-   second cyclic test ("/a/m".startswith("/a/")) raises CyclicPathError. *)
-Theorem C13_inv_refuted_K4 :
-  (forall n, has_slash (k4_labels n) = false) /\
-  let s := run k4_kinds all_strict nores 3 10 10 (init_state k4_labels) k4_ops in
-  snd (step k4_kinds all_strict nores 3 10 10
-         (run k4_kinds all_strict nores 3 10 10 (init_state k4_labels) (firstn 1 k4_ops))
-         (AddChild 1 2 (Some "a"%string) None)) = Err ECyclic /\
-  kids s 1 = [("a"%string, 2)] /\ par s 2 = None /\ lbl s 2 = "a"%string /\
-  ~ Inv k4_kinds nores s.
-Proof. exact k4_refuted. Qed.
-Print Assumptions C13_inv_refuted_K4.
-
-(* K3: R owns M owns x;  M.replace_child(x, R) removes x and swaps the labels of x and R
-   before add_child refuses the cyclic adoption. *)
-Theorem C13_rejected_noop_refuted_K3 :
-  (forall n, has_slash (k3_labels n) = false) /\
-  let s := run k3_kinds all_strict nores 3 10 10 (init_state k3_labels) k3_ops in
-  let x := step k3_kinds all_strict nores 3 10 10 s (ReplaceI 1 2 0) in
-  Inv k3_kinds nores s /\ snd x = Err ECyclic /\
-  par s 2 = Some 1 /\ par (fst x) 2 = None /\ lbl s 0 = "R"%string /\ lbl (fst x) 0 = "x"%string /\ fst x <> s.
-Proof. exact k3_refuted. Qed.
-Print Assumptions C13_rejected_noop_refuted_K3.
-
-(* Non-vacuity: a 16-operation history over 7 objects (3 nesting levels, strict and
-   non-strict composites, a reserved table) with a move between parents, suffixing,
-   re-labelling through adoption, a replacement that inherits the starting status and five
-   refused operations is inside the guards, and ends in the expected tree. *)
+(* Non-vacuity / what the model computes: a 17-operation history over 7 objects (3 nesting
+   levels, strict and non-strict composites, a reserved table) with a move between parents,
+   suffixing, re-labelling through adoption, a replacement that inherits the starting status,
+   a non-strict parent assignment and five refused operations, and the tree it ends in. *)
 Example C13_hyps_hold :
   let s := run ex_kinds ex_strict ex_res 7 20 12 (init_state ex_labels) ex_ops in
   (forall n, has_slash (ex_labels n) = false) /\
-  safe ex_kinds ex_strict ex_res 7 20 12 (init_state ex_labels) ex_ops = true /\
   map (fun k => snd (step ex_kinds ex_strict ex_res 7 20 12
                        (run ex_kinds ex_strict ex_res 7 20 12 (init_state ex_labels) (firstn k ex_ops))
                        (nth k ex_ops (SetStart 0 0))))
       [4; 6; 7; 9; 10] = [Err EValue; Err EAttribute; Err EAttribute; Err ECyclic; Err EParentMost] /\
-  kids s 0 = [("m", 1)]%string /\ kids s 1 = [] /\ kids s 2 = [("a", 5)]%string /\ strt s 2 = [5] /\
-  par s 2 = None /\ lbl s 3 = "b"%string /\ par s 4 = None /\ lbl s 4 = "z"%string /\
-  path 20 s 5 = Some "/n/a"%string.
-Proof. exact ex_safe. Qed.
+  kids s 0 = [("m", 1)]%string /\ kids s 1 = [("z", 4)]%string /\ kids s 2 = [("a", 5)]%string /\ strt s 2 = [5] /\
+  par s 2 = None /\ lbl s 3 = "b"%string /\ par s 4 = Some 1 /\
+  path 20 s 5 = Some "/n/a"%string /\ path 20 s 4 = Some "/w/m/z"%string.
+Proof. exact ex_history. Qed.
